@@ -141,6 +141,14 @@ pub fn features(case: &Case, v: &Violation) -> Vec<String> {
     if plan.phases.len() > 1 {
         f.insert("several-processes".into());
     }
+    // derived corpus shapes named by the calls (after minimisation usually one)
+    for op in plan.all_ops() {
+        let ty = op.ty();
+        if ty >= crate::uni::DER_BASE {
+            let label = crate::corpus::MANIFEST[(ty - crate::uni::DER_BASE) as usize].label;
+            f.insert(format!("root:{label}"));
+        }
+    }
     if let Case::Faulted { kind, .. } = case {
         f.insert(format!("obstacle-{kind:?}"));
     }
